@@ -50,12 +50,19 @@ Definition pack (bits off : Z) (l : list Z) : list Z :=
 
 Definition nz (n : nat) : Z := Z.of_nat n.
 
-(* FFSynchronizer(i, o, stages, init) with i, o : Shape(w, sg); answer = 1 (the slot where the
-   implementation side reports its shift-register monitor), then the packed [o initially; o after every group] *)
-Definition k_ff (w : Z) (sg : bool) (stages : nat) (init i0 : Z) (gs : list (list event)) : list Z :=
+(* FFSynchronizer(i, o, stages[, init]) with o : Shape(w, sg) and i = a (inv = false) or i = ~a
+   (inv = true) for a driven Signal a : Shape(w, sg) with init a0; the steps drive a.
+   init = None: the constructor is called without init=.
+   answer = 1 (the slot where the implementation side reports its shift-register monitor), then the
+   packed [o initially; o after every group] *)
+Definition in_expr (sh : shape) (inv : bool) (a : Z) : Z := if inv then Z.lnot (norm sh a) else a.
+Definition expr_event (sh : shape) (inv : bool) (e : event) : event :=
+  match e with Ein v => Ein (in_expr sh inv v) | _ => e end.
+Definition k_ff (w : Z) (sg : bool) (stages : nat) (init : option Z) (inv : bool) (a0 : Z)
+                (gs : list (list event)) : list Z :=
   let sh := Sh w sg in
-  let s0 := ff_start sh stages init i0 in
-  1 :: pack (w + 1) (2 ^ w) (ff_out s0 :: trace (ff_step sh) ff_out s0 gs).
+  let s0 := ff_start sh stages init (in_expr sh inv a0) in
+  1 :: pack (w + 1) (2 ^ w) (ff_out s0 :: trace (ff_step sh) ff_out s0 (map (map (expr_event sh inv)) gs)).
 
 (* AsyncFFSynchronizer(i, o, stages, async_edge) *)
 Definition k_af (pos : bool) (stages : nat) (i0 : Z) (gs : list (list event)) : list Z :=
